@@ -847,7 +847,7 @@ class Concave(Term):
         i = self.inflection
         e = self.end
         increasing = (i <= e) & (x < e)
-        decreasing = (i >= e) & (x > e)
+        decreasing = (i > e) & (x > e)
         y = (
             self.height
             * np.where(np.isnan(x), np.nan, 1.0)
